@@ -468,6 +468,16 @@ func runAll(a *hlib.Args, e *hlib.Emitter, cases []rl.Case) error {
 	for _, c := range out {
 		e.Emit(c)
 	}
+	if a.Tier == "thorough" && a.Replay == "" {
+		// free-running stress (support only): violations are reported as a harness-level error case
+		for _, be := range []string{"cdb", "rdb2"} {
+			msg := rl.Stress(pool, filepath.Join(base, "stress-"+be), be, 6, 4*time.Second)
+			c := rl.Case{Kind: "sched", Class: "stress", Cfg: rl.Config{Backend: be}, Disk: smallDisk(0), P0: 0, Err: msg, Threads: []rl.ThreadSpec{}, Sched: []int{}}
+			c.Derive()
+			c.Steps, c.Resps, c.RelErr = []rl.Step{}, []rl.Resp{}, []string{}
+			e.Emit(c)
+		}
+	}
 	return nil
 }
 
